@@ -205,7 +205,7 @@ def plans(world, info, seed, tier):
     specs = []
 
     def mk(faults, latency="instant", reply="canonical", tag=""):
-        return {"world": world, "ref": {"n": n},
+        return {"world": world, "ref": {"n": n}, "decoy": rng.random() < 0.2,
                 "sim": {"latency": latency, "reply": reply, "reply_seed": rng.randrange(1 << 30),
                         "faults": faults, "tick": rng.choice([1e-6, 1e-4, 1e-2])}, "tag": tag}
 
@@ -367,7 +367,16 @@ def execute(spec):
             vs.append(Violation(ID, "C13.system_exit", world["class"], {"where": ref_out.get("where"), "run": "reference"}))
         else:
             vs += check_run(world, ref_out, None, True)
-        out, w, _ = simrun.run_world(world, spec["sim"], seed=seed, step_cap=cap)
+        hooks = None
+        if spec.get("decoy"):
+            # the caller builds a second, independent instance before solving the first one (it is never solved)
+            def _decoy(model, simw):
+                try:
+                    simw._decoy = models.build(world)
+                except Exception:
+                    pass
+            hooks = {"after_construct": _decoy}
+        out, w, _ = simrun.run_world(world, spec["sim"], seed=seed, step_cap=cap, hooks=hooks)
         fired = sum(out["fired"].values())
         vs += check_run(world, out, ref if not ref_out["system_exit"] else None, fired > 0)
         # 6: recovery - a fresh fault-free run in the same process reproduces the reference
